@@ -272,6 +272,36 @@ def run(ctx):
             au = f.origin(ru.field_op(s, "authority"))
             ctx.check(ru.o_has_call(au, "From<http::uri::Uri>>::from") and not fl.has_arith(au), "C12-d", pr.key, ":authority = the caller's URI authority",
                       "authority = %s" % fl.fmt(au)[:120], "")
+        # RFC 9114 4.3.1 / 4.4 / RFC 8441: :scheme and :path are left out for a plain CONNECT only; an extended CONNECT (one that
+        # carries :protocol) and every other method send them; :protocol goes out only with CONNECT
+        names_ = [f_["name"] for f_ in prog.adts[H + "Pseudo"]["variants"][0]["fields"]]
+        rows_ = {}
+        for p in [p for p in ru.all_paths(ctx, "C12-d", pr, max_visits=1) if p.end == "return" and p.ret is not None and p.ret[0] == "agg"]:
+            fld = dict(zip(names_, p.ret[3]))
+            conn = {t[2] for t in p.tests if t[3][0] == "call" and pa.short(t[3][1]) in ("eq", "ne") and "Method::CONNECT" in t[1]}
+            if len(conn) != 1:
+                ctx.unrecognised("C12-d", pr.key, "CONNECT test", "the method == CONNECT decision of a path is %s" % sorted(conn))
+                continue
+            is_conn = (next(iter(conn)) == "true")
+            proto = fld.get("protocol")
+            pk = p.known_none(proto) if hasattr(p, "known_none") else None
+            pn = [t[2] for t in p.tests if t[3][0] == "call" and pa.short(t[3][1]) in ("is_none", "is_some") and t[3][2] and t[3][2][0] == proto]
+            pstate = None
+            if proto is not None and proto[0] == "agg" and proto[2] == "None":
+                pstate = "None"
+            elif pn:
+                pstate = "None" if (pn[-1] == "true") == (pa.short([t for t in p.tests if t[3][0] == "call" and pa.short(t[3][1]) in ("is_none", "is_some") and t[3][2] and t[3][2][0] == proto][-1][3][1]) == "is_none") else "Some"
+            none = lambda v: v is not None and v[0] == "agg" and v[2] == "None"
+            rows_[(is_conn, pstate)] = (none(fld.get("scheme")), none(fld.get("path")), pa.vfmt(proto)[:40] if proto else "?")
+        want_rows = {(True, "None"): (True, True), (True, "Some"): (False, False), (False, "None"): (False, False)}
+        for k_, (ws, wp) in want_rows.items():
+            got = rows_.get(k_)
+            ctx.check(got is not None and got[:2] == (ws, wp), "C12-d", pr.key,
+                      "CONNECT=%s, :protocol %s -> :scheme/:path %s" % (k_[0], k_[1], "left out" if ws else "sent"),
+                      "for method %s CONNECT with :protocol %s the request pseudo-headers have scheme-absent=%s path-absent=%s (all rows: %s); only a plain "
+                      "CONNECT omits :scheme and :path - an extended CONNECT without them is malformed for the peer (RFC 8441 section 4)"
+                      % ("==" if k_[0] else "!=", k_[1], got and got[0], got and got[1], rows_), str(got))
+        ctx.check(not [k_ for k_ in rows_ if k_ == (False, "Some")], "C12-d", pr.key, ":protocol only with CONNECT", "rows: %s" % rows_, "")
     pc = prog.find(r"^h3::proto::headers::Pseudo::request::\{closure#1\}$")
     if pc:
         c = pc[0]
